@@ -106,6 +106,12 @@ class SimSpec:
             "inner_icontract_monitor_evaluations": total(ok, "inner_evals"),
             "inner_icontract_monitor_failures_advisory": total(ok, "inner_failure_count"),
             "scenarios_with_full_slurm_state_vocabulary": sum(1 for t in tasks if t["args"]["scen"].get("squeue_vocab") == "full"),
+            "runs_with_a_scheduler_outage": sum(1 for r in ok if any(f and f[0] == "squeue_fail" for f in (r.get("faults") or []))),
+            "status_queries_failed_by_injection": sum(sum(1 for f in (r.get("faults") or []) if f and f[0] == "squeue_fail") for r in ok),
+            "scenarios_with_a_resubmission": sum(1 for t in tasks if (t["args"]["scen"].get("resubmit") or {}).get("rounds")),
+            "resubmissions_with_changed_group_parameters": sum(1 for t in tasks for rd in (t["args"]["scen"].get("resubmit") or {}).get("rounds", []) if rd.get("groups")),
+            "scenarios_with_a_held_slow_blocker": sum(1 for t in tasks if t["args"]["scen"].get("hold_job")),
+            "lock_markers_of_live_holders_detached_by_the_lock_library": total(ok, "live_lock_breaks"),
         }
 
     def counters(self, tasks, results):
